@@ -14,6 +14,7 @@
 #include <amgcl/preconditioner/dummy.hpp>
 #include <amgcl/solver/cg.hpp>
 #include <amgcl/solver/bicgstab.hpp>
+#include <map>
 #include "c17_roworder.hpp"
 
 using namespace vf;
@@ -62,6 +63,51 @@ static void prop_amg(Tape &t, Ctx &c) {
     Applied b = build_and_apply(oc.shuffled, oc.probes, build);
     c.label("levels=" + std::to_string(std::min<size_t>(levels, 4)));
     require_bitwise_equal(c, a, b, std::string("amg<") + COARSENING[ci] + "," + RELAX[ri] + ">");
+}
+
+// amg::rebuild(const Matrix&): a hierarchy set up (allow_rebuild) for A and rebuilt for A' (same pattern, other values) from rows listed in
+// an arbitrary order equals the one rebuilt from the sorted rows of A'.  Two objects, both constructed from the sorted A.
+static void prop_amg_rebuild(Tape &t, Ctx &c) {
+    int ci = static_cast<int>(t.u(0, 3));
+    // relaxations that walk rows in storage order / factorise (gauss_seidel, ilu0, iluk, ilup, ilut) get extra weight
+    static const int RMAP[] = {0, 1, 2, 3, 4, 5, 6, 7, 8, 0, 1, 2, 3, 4, 1, 4};
+    int ri = RMAP[t.u(0, 15)];
+    OrderCase oc = gen_order_case(t, t.chance(1, 4) ? 10 : 100);
+    int cec = static_cast<int>(t.u(0, 2));
+    unsigned ce = cec == 0 ? 8 : cec == 1 ? 2 : 3000;
+    // A': diagonal grown by 10..50 % per row, off-diagonals shrunk by a common factor (still a diagonally dominant M-matrix)
+    Csr<double> Ap = oc.sorted;
+    double g = t.uni(0.6, 1.0);
+    for (ptrdiff_t i = 0; i < Ap.n; ++i) { double di = 1.0 + t.uni(0.1, 0.5); for (ptrdiff_t j = Ap.ptr[i]; j < Ap.ptr[i + 1]; ++j) Ap.val[j] *= (Ap.col[j] == i ? di : g); }
+    // the same A' with the row entries in the order of oc.shuffled
+    Csr<double> Aps = oc.shuffled;
+    for (ptrdiff_t i = 0; i < Ap.n; ++i) {
+        std::map<ptrdiff_t, double> row; for (ptrdiff_t j = Ap.ptr[i]; j < Ap.ptr[i + 1]; ++j) row[Ap.col[j]] = Ap.val[j];
+        for (ptrdiff_t j = Aps.ptr[i]; j < Aps.ptr[i + 1]; ++j) Aps.val[j] = row[Aps.col[j]];
+    }
+    c.desc << "amg rebuild row order " << COARSENING[ci] << " x " << RELAX[ri] << " " << oc.family << " " << describe(oc.sorted) << " coarse_enough=" << ce << " changed=" << oc.changed
+           << " A'(shuffled)=" << dump_small(Aps, 8);
+    common_labels(c, oc);
+    c.label(std::string("rebuild:coarsening:") + COARSENING[ci]); c.label(std::string("rebuild:relax:") + RELAX[ri]);
+    boost::property_tree::ptree prm;
+    prm.put("coarsening.type", COARSENING[ci]); prm.put("relax.type", RELAX[ri]);
+    prm.put("coarse_enough", ce); prm.put("allow_rebuild", true);
+    const Csr<double> &A0 = oc.sorted;
+    auto build = [&](const Csr<double> &A1) {
+        size_t n = static_cast<size_t>(A0.n);
+        auto P = std::make_shared<RtAmg>(std::tie(n, A0.ptr, A0.col, A0.val), prm);
+        P->rebuild(std::tie(n, A1.ptr, A1.col, A1.val));
+        require_wellformed(P->system_matrix(), "amg::system_matrix after rebuild", true, true);
+        // the rebuilt level-0 matrix holds the values of A'
+        const auto &K = P->system_matrix();
+        VF_REQUIRE(static_cast<ptrdiff_t>(K.nnz) == Ap.nnz(), "amg::rebuild: level-0 nnz");
+        for (ptrdiff_t j = 0; j < Ap.nnz(); ++j) VF_REQUIRE(K.col[j] == Ap.col[j] && bits_equal(K.val[j], Ap.val[j]), "amg::rebuild: level-0 entry " << j << " is (" << K.col[j] << "," << K.val[j] << "), A' (sorted) has ("
+                                                             << Ap.col[j] << "," << Ap.val[j] << ")");
+        return [P](const std::vector<double> &f, std::vector<double> &x) { P->apply(f, x); };
+    };
+    Applied a = build_and_apply(Ap, oc.probes, build);
+    Applied b = build_and_apply(Aps, oc.probes, build);
+    require_bitwise_equal(c, a, b, std::string("amg::rebuild<") + COARSENING[ci] + "," + RELAX[ri] + ">");
 }
 
 static void prop_relax(Tape &t, Ctx &c) {
@@ -139,6 +185,7 @@ static void prop_make_solver(Tape &t, Ctx &c) {
 static std::vector<Prop> props() {
     return {
         Prop("amg", prop_amg, 900, 12000, 100, 40, {1}, 3, 8),
+        Prop("amg_rebuild", prop_amg_rebuild, 600, 8000, 100, 40, {1}, 2, 8),
         Prop("relax", prop_relax, 500, 6000, 100, 40, {1}, 2, 8),
         Prop("make_solver", prop_make_solver, 400, 5000, 100, 40, {1}, 2, 8),
     };
